@@ -283,6 +283,31 @@ def clause3_commit(ctx, P, cg):
     ctx.floor("C03.3 R-COMMIT", 2)
 
 
+def clause3b_revert(ctx, P):
+    """remove_routing_information() reverts a SUCCESSFUL setup_routing_information(): it is called only on paths on which that
+    call was made before and did not fail (on any other path the timer was never initialised and the entry is not in the table)"""
+    soc = P.fn("element.c:set_or_call")
+    bad = None
+    n = 0
+    for v in Q.path_views(ctx, P, soc):
+        calls = [(k, i) for k, i in v.calls(("setup_routing_information", "remove_routing_information"))]
+        for k, i in calls:
+            if P.srcname_of(i.callee) != "remove_routing_information":
+                continue
+            n += 1
+            setups = [(k2, j) for k2, j in calls if k2 < k and P.srcname_of(j.callee) == "setup_routing_information"]
+            ok = False
+            for k2, j in setups:
+                ok = v.has_atom(lambda a, p, j=j: a[0] == "cmp" and a[2][0] == "call" and a[2][3] == j.id and a[3] == ("const", 0) and
+                                ((a[1] == "slt" and not p) or (a[1] == "sge" and p) or (a[1] == "eq" and p) or (a[1] == "ne" and not p)))
+            if not ok:
+                bad = v
+    ctx.ob("C03.3 R-ORDER", soc, "revert-only-what-was-set-up", bad is None and n > 0,
+           "remove_routing_information() is reached on a path on which setup_routing_information() was not called successfully before: "
+           "it cancels and destroys a timer that was never initialised and removes an entry that is not in the table",
+           witness=bad.witness() if bad else None)
+
+
 def clause4_route(ctx, P):
     soc = P.fn("element.c:set_or_call")
     e_is_lookup = lambda t: Q.is_call_to(t, "element_table_get")
@@ -438,6 +463,7 @@ def run(ctx):
         clause1_pop(ctx, P)
         clause2_siblings(ctx, P, cg)
         clause3_commit(ctx, P, cg)
+        clause3b_revert(ctx, P)
         clause4_route(ctx, P)
         clause5_payload(ctx, P)
         clause6_unique(ctx, P)
